@@ -314,7 +314,8 @@ class GenCfg:
         self.consts = not fleet and rng.chance(0.6)
         self.options = not fleet and rng.chance(0.3)
         # rarely combined but legal features (compiler world only)
-        self.p_empty = 0.0 if fleet else rng.choice([0.0, 0.1, 0.25])
+        # empty (reserved) messages are documented: `message Inner' {}` still costs its 16-bit prefix
+        self.p_empty = rng.choice([0.0, 0.08, 0.2]) if fleet else rng.choice([0.0, 0.1, 0.25])
         self.odd_names = not fleet and rng.chance(0.3)
         self.shadow = not fleet and rng.chance(0.3)
         self.wide_enums = not fleet and rng.chance(0.4)
